@@ -335,6 +335,10 @@ impl<'a> Tr<'a> {
                 self.lift(&[recv], f.1, false, &|a| format!("({} {})", f.0, a[0]))
             }
             Ty::Str => match name.as_str() {
+                "as_str" | "as_ref" => {
+                    nargs(self, 0)?;
+                    Ok(recv)
+                }
                 "as_bytes" => {
                     nargs(self, 0)?;
                     Ok(Val { ty: Ty::Slice, ..recv })
